@@ -19,8 +19,8 @@ PLAN = {
     "C04": dict(mc_q=[("flowerr", 2, 3), ("nesterr", 2, 3), ("nilstart", 1, 3), ("flowbatch", 2, 4)],
                 mc_t=[("flowerr", 2, 5), ("nesterr", 2, 4), ("nilstart", 1, 4), ("single", 4, 4), ("flowbatch", 2, 5)],
                 gen_q=("faultenum,err,hugeloop", 60), gen_t=("faultenum,err,nilstart,hugeloop", 800)),
-    "C05": dict(mc_q=[("singlecancel", 2, 4), ("flowcancel", 2, 3), ("flowbatch", 2, 4)],
-                mc_t=[("singlecancel", 3, 4), ("flowcancel", 2, 4), ("flowbatch", 2, 5)],
+    "C05": dict(mc_q=[("singlecancel", 2, 4), ("singlewait", 2, 4), ("flowcancel", 2, 3), ("flowbatch", 2, 4)],
+                mc_t=[("singlecancel", 3, 4), ("singlewait", 3, 4), ("flowcancel", 2, 4), ("flowbatch", 2, 5)],
                 gen_q=("cancelenum,cancel,zerocancel", 60), gen_t=("cancelenum,cancel,zerocancel", 800)),
     "C10": dict(mc_q=[("nestsmall", 1, 4), ("nesterr", 2, 3), ("flowretry", 1, 5), ("selfnest", 1, 4)],
                 mc_t=[("nest", 1, 5), ("nest3", 1, 5), ("nesterr", 2, 4), ("flowretry", 1, 6), ("selfnest", 1, 5)],
